@@ -222,3 +222,25 @@ Definition mode (l : list Z) : Z :=
 (* channel_labels[:, i] = labels of batch i; mode along axis 1 *)
 Definition cbin_labels (nc : nat) (batches : list (list Z)) : list Z :=
   map (fun c => mode (map (fun b => nth c b 0) batches)) (seq 0 nc).
+
+(* ---------------------------------------------------------------------- *)
+(* detect_bad_channels.detrend(x, nmed=11): x minus its median-filtered version, the vector being
+   extended by ntap = ceil(11/2) = 6 copies of its first and of its last value
+     xf = r_[zeros(ntap) + x[0], x, zeros(ntap) + x[-1]];  xf = medfilt(xf, 11)[ntap:-ntap];  x - xf
+   (output t sees xf[t+1 .. t+11]; medfilt's own zero padding only reaches the 6 discarded entries at
+   either end).  The median of an odd window is modelled as the first entry that has at most h entries
+   strictly below and at most h strictly above it; every such entry has the same value
+   (Proofs.is_median_unique), the middle order statistic scipy.signal.medfilt returns. *)
+Section DetrendModel.
+Context {F : Type} (O : ops F).
+
+Definition count_lt (m : F) (l : list F) : nat := length (filter (fun v => fltb O v m) l).
+Definition count_gt (m : F) (l : list F) : nat := length (filter (fun v => fltb O m v) l).
+Definition is_median (h : nat) (m : F) (l : list F) : bool :=
+  (count_lt m l <=? h)%nat && (count_gt m l <=? h)%nat.
+Definition median (h : nat) (l : list F) : F :=
+  match find (fun m => is_median h m l) l with Some m => m | None => f0 O end.
+Definition detrend11 (x : list F) : list F :=
+  let xf := repeat (hd (f0 O) x) 6 ++ x ++ repeat (last x (f0 O)) 6 in
+  map (fun t => fsub O (nth t x (f0 O)) (median 5 (firstn 11 (skipn (S t) xf)))) (seq 0 (length x)).
+End DetrendModel.
